@@ -5,6 +5,7 @@ import (
 	"fmt"
 	"go/types"
 	"math"
+	"regexp"
 	"strings"
 	"time"
 	"unsafe"
@@ -28,6 +29,7 @@ type Env struct {
 	removed  []string
 	faultOpen  bool // OpenFile may fail (symbolic choice)
 	faultWrite bool
+	faultWriteAll bool // every write to a model file fails (a target that opens but cannot be written, e.g. a full disk)
 	writes     int
 	writeFaults int
 	readings   []Value
@@ -770,6 +772,10 @@ func (e *Engine) addEnvIntrinsics() {
 			return Tuple{uint64(0), c.s.newError("write " + fd.path + ": file already closed")}
 		}
 		env := c.s.env
+		if env.faultWriteAll && fd.std == 0 {
+			env.writeFaults++
+			return Tuple{uint64(0), c.s.newError("write " + fd.path + ": no space left on device")}
+		}
 		if env.faultWrite && fd.std == 0 {
 			k := c.s.choose(c.w, 2)
 			c.s.choices = append(c.s.choices, ChoiceRec{"writefault", k})
@@ -829,6 +835,54 @@ func (e *Engine) addEnvIntrinsics() {
 		env.files[ix].removed = true
 		env.removed = append(env.removed, c.s.evalDescribe(c.args[0]))
 		return Iface{}
+	}
+	// regexp: compiled and matched natively on concrete patterns and subjects (a symbolic
+	// subject is outside what the engine can decide: unsupported, i.e. inconclusive)
+	plainStr := func(c *callCtx, i int) string {
+		if x, ok := c.args[i].(string); ok {
+			return x
+		}
+		c.s.unsupported("regexp on a symbolic string")
+		return ""
+	}
+	in["regexp.MustCompile"] = func(c *callCtx) Value {
+		re, err := regexp.Compile(plainStr(c, 0))
+		if err != nil {
+			panic(goPanic{c.s.newError("regexp: Compile: " + err.Error())})
+		}
+		return NativeVal{re}
+	}
+	in["regexp.Compile"] = func(c *callCtx) Value {
+		re, err := regexp.Compile(plainStr(c, 0))
+		if err != nil {
+			return Tuple{Ptr{}, c.s.newError(err.Error())}
+		}
+		return Tuple{NativeVal{re}, Iface{}}
+	}
+	in["regexp.QuoteMeta"] = func(c *callCtx) Value { return regexp.QuoteMeta(plainStr(c, 0)) }
+	in["regexp.MatchString"] = func(c *callCtx) Value {
+		ok, err := regexp.MatchString(plainStr(c, 0), plainStr(c, 1))
+		if err != nil {
+			return Tuple{false, c.s.newError(err.Error())}
+		}
+		return Tuple{ok, Iface{}}
+	}
+	in["(*regexp.Regexp).MatchString"] = func(c *callCtx) Value {
+		re := c.args[0].(NativeVal).V.(*regexp.Regexp)
+		return re.MatchString(plainStr(c, 1))
+	}
+	in["(*regexp.Regexp).FindStringSubmatch"] = func(c *callCtx) Value {
+		re := c.args[0].(NativeVal).V.(*regexp.Regexp)
+		m := re.FindStringSubmatch(plainStr(c, 1))
+		if m == nil {
+			return Slice{}
+		}
+		slots := make([]Value, len(m))
+		for i, x := range m {
+			slots[i] = x
+		}
+		id := c.s.allocMem(slots)
+		return Slice{ID: id, Len: int32(len(m)), Cap: int32(len(m))}
 	}
 	in["os.ReadDir"] = func(c *callCtx) Value {
 		dir := strings.TrimSuffix(c.concreteStr(0), "/")
@@ -901,6 +955,15 @@ func (e *Engine) addEnvIntrinsics() {
 			} else {
 				a, _ := age.(uint64)
 				mt = uint64(env.fixedNow/1e9 + unixToInternal - int64(a))
+			}
+			// an existing file of that (concrete) name is rewritten: new content, new modification time
+			if ns, ok := name.(string); ok {
+				for _, f := range env.files {
+					if fs, ok := f.name.(string); ok && !f.removed && f.dir == dir && fs == ns && !f.isDir && !isDir {
+						f.content, f.mtime = content, mt
+						return nil
+					}
+				}
 			}
 			env.files = append(env.files, &FileNode{dir: dir, name: name, content: content, mtime: mt, isDir: isDir})
 			return nil
@@ -980,7 +1043,8 @@ func (e *Engine) addEnvIntrinsics() {
 		}
 		in[p+"vFaults"] = func(c *callCtx) Value {
 			c.s.env.faultOpen = c.int(0) != 0
-			c.s.env.faultWrite = c.int(1) != 0
+			c.s.env.faultWrite = c.int(1) == 1
+			c.s.env.faultWriteAll = c.int(1) == 2
 			return nil
 		}
 	}
